@@ -156,6 +156,12 @@ func runLinCase(c linCase) outcome {
 		}
 		x := noiseCtr.Add(1)*0x9e3779b97f4a7c15 ^ uint64(c.Seed)
 		x ^= x >> 29
+		// widen the two narrowest windows: a resizer between its decision and taking the resize flag, and a finished load
+		// between the loader's return and the installing computation
+		if (id == "hm.resize.beforeCAS" && x%2 == 0) || (id == "load.beforeInstall" && x%4 == 0) {
+			time.Sleep(time.Duration(50+(x>>12)%400) * time.Microsecond)
+			return
+		}
 		switch r := int(x % 1000); {
 		case c.Noise == 2 && r < 6:
 			time.Sleep(time.Duration(20+(x>>12)%200) * time.Microsecond)
@@ -173,7 +179,11 @@ func runLinCase(c linCase) outcome {
 	var tokCtr atomic.Int64
 
 	// loader-produced values and the call interval of the Get that produced them
-	type loadInfo struct{ callStart, callEnd int64 }
+	type loadInfo struct {
+		callStart, callEnd, exit int64
+		tok                      int
+		failed                   bool
+	}
 	var loadMu sync.Mutex
 	loads := map[int]*loadInfo{} // by loaded value
 
@@ -298,7 +308,7 @@ func runLinCase(c linCase) outcome {
 						rec.add(vh.HOp{Kind: "begin", Key: k, Client: g, Token: tok, Call: call, Ret: entryT})
 						rec.add(vh.HOp{Kind: "finish", Key: k, Client: g, Token: tok, Val: loaded, OutErr: fail, Call: exitT, Ret: ret, MayDrop: true})
 						loadMu.Lock()
-						loads[loaded] = &loadInfo{call, ret}
+						loads[loaded] = &loadInfo{call, ret, exitT, tok, fail}
 						loadMu.Unlock()
 						if (err != nil) != fail || v != loaded {
 							rec.add(vh.HOp{Kind: "bad-get", Key: k, Client: g, Call: call, Ret: ret, Val: loaded, OutVal: v, OutErr: err != nil})
@@ -316,19 +326,26 @@ func runLinCase(c linCase) outcome {
 	// filler traffic: forces growth/shrink of the table and, in bounded caches, eviction of hot keys
 	var growthsBefore, shrinksBefore int64
 	growthsBefore, shrinksBefore = cache.VerifTableResizes()
+	fillers := 0
 	if c.Filler > 0 {
+		fillers = 1
+	}
+	if c.Filler >= 600 {
+		fillers = 2 + int(uint64(c.Seed)%2) // several goroutines can decide to resize the same table
+	}
+	for f := 0; f < fillers; f++ {
 		wg.Add(1)
-		go func() {
+		go func(base int) {
 			defer wg.Done()
 			for wave := 0; wave < 3 && !stop.Load(); wave++ {
-				for i := 0; i < c.Filler; i++ {
-					cache.Set(1000+i, i)
+				for i := 0; i < c.Filler/fillers; i++ {
+					cache.Set(base+i, i)
 				}
-				for i := 0; i < c.Filler; i++ {
-					cache.Invalidate(1000 + i)
+				for i := 0; i < c.Filler/fillers; i++ {
+					cache.Invalidate(base + i)
 				}
 			}
-		}()
+		}(1000 + f*100000)
 	}
 	wg.Wait()
 	stop.Store(true)
@@ -375,7 +392,10 @@ func runLinCase(c linCase) outcome {
 			li := loads[op.OutVal]
 			loadMu.Unlock()
 			if li != nil && li.callEnd > op.Call && li.callStart < op.Ret {
-				joiners++ // overlapped the loading call: it may have received the value as a waiter
+				// overlapped the loading call: it found the installed value or received it as a waiter; a waiter is released
+				// only after the load's installing step, so operations that follow its return see the installed value
+				joiners++
+				hist = append(hist, vh.HOp{Kind: "joinhit", Key: op.Key, Client: op.Client, Call: max(op.Call, li.exit), Ret: op.Ret, OutVal: op.OutVal, OutOK: true, Token: li.tok})
 				continue
 			}
 			hist = append(hist, vh.HOp{Kind: "read", Key: op.Key, Client: op.Client, Call: op.Call, Ret: op.Ret, OutVal: op.OutVal, OutOK: true, Note: "Get hit"})
